@@ -108,8 +108,8 @@ C09Rules(r, f) ==
           <<"C09.regenerates", (Has(f, "regen") /\ Has(d, "seektable")) =>
                 LET rg == f.regen IN
                 /\ Len(rg) >= 0          \* (a string here = generate_seektable failed: comparison error is a tooling error)
-                /\ AllDef = SubSeq(rg, 1, Min2(Len(AllDef), Len(rg)))
-                /\ Len(AllDef) <= Len(rg)>> >>
+                \* the same defined points: none missing at the end, none extra
+                /\ AllDef = rg>> >>
 
 \* ---- C15
 \* WriterApi: the documented parameter ranges (constructor docs and Options setters)
